@@ -44,7 +44,7 @@ func newMemorySegmentFile() segmentFile {
 func (mf *memorySegmentFile) open(path string) (err error) {
 	mf.file = segmentPool.Get().(*bytes.Buffer)
 	mf.file.Reset()
-	mf.w, err = mpegts.NewWriter(mf.file)
+	mf.w, err = mpegts.NewWriter(verifSegmentWriter(mf.file))
 	return
 }
 
